@@ -40,7 +40,9 @@ if os.path.exists(mp):
         n += 1
         c += v.get("exit") == 1
         res = {1: "caught", 0: "**missed**", 2: "inconclusive", None: "patch no longer applies"}.get(v.get("exit"), str(v.get("exit")))
-        note = notes.get(k) or (v.get("signatures") or [""])[0]
+        note = (v.get("signatures") or [""])[0]
+        if notes.get(k):
+            note = (note + " - " if note and v.get("exit") == 1 else "") + notes[k]
         out.append("| %s | %s | %s |" % (k, res, cell(note, 200)))
     out.append("")
     out.append("%d of %d mutants caught.\n" % (c, n))
